@@ -93,13 +93,6 @@ Lemma compare_path_asym p q : compare_path p q = Lt -> compare_path q p = Lt -> 
 Proof. intros H1 H2. rewrite compare_path_opp, H1 in H2. discriminate. Qed.
 
 (* ---------------------------------------------------------------- listings *)
-Definition plt (a b : stat) : Prop := compare_path (st_path a) (st_path b) = Lt.
-Definition sorted (L : list stat) : Prop := StronglySorted plt L.
-Definition closed (L : list stat) : Prop :=
-  forall s, In s L -> forall q r, st_path s = q ++ sep :: r ->
-  exists t, In t L /\ st_path t = q /\ st_is_dir t = true.
-Definition wf_listing (L : list stat) : Prop := sorted L /\ closed L.
-Definition paths (L : list stat) : list bytes := map st_path L.
 
 Lemma plt_trans a b c : plt a b -> plt b c -> plt a c.
 Proof. apply compare_path_trans. Qed.
@@ -255,25 +248,10 @@ Qed.
 (* ---------------------------------------------------------------- specification *)
 Variables A B : list stat.
 
-Definition notin (L : list stat) (p : bytes) : Prop := forall s, In s L -> st_path s <> p.
-
-(* a directory of A that is absent from B, or a non-directory there *)
-Definition removed_root (a : stat) : Prop :=
-  In a A /\ st_is_dir a = true /\
-  (notin B (st_path a) \/ exists b, In b B /\ st_path b = st_path a /\ st_is_dir (flt b) = false).
-
-Definition hidden_by (A0 : list stat) (p : bytes) : Prop :=
-  exists a, In a A0 /\ removed_root a /\ above (st_path a) p = true.
-Definition hidden (p : bytes) : Prop := hidden_by A p.
-
-Definition spec_change (c : change) : Prop :=
-  match c with
-  | (KAdd, p, Some b) => In b B /\ st_path b = p /\ notin A p
-  | (KModify, p, Some b) =>
-      In b B /\ st_path b = p /\ exists a, In a A /\ st_path a = p /\ same_file d a (flt b) = false
-  | (KDelete, p, None) => (exists a, In a A /\ st_path a = p) /\ notin B p /\ ~ hidden p
-  | _ => False
-  end.
+Notation removed_root := (Diff.removed_root flt A B).
+Notation hidden_by := (Diff.hidden_by flt A B).
+Notation hidden := (Diff.hidden flt A B).
+Notation spec_change := (Diff.spec_change flt d A B).
 
 (* the run of the loop, with the rmdir state replaced by its meaning *)
 Inductive run : list stat -> list stat -> list change -> Prop :=
@@ -691,4 +669,47 @@ Qed.
 Theorem resync_noop_proof B : diff (fun s => s) DMetadata B B = [].
 Proof.
   apply resync_noop_gen. induction B; constructor; auto. split; auto. apply same_file_refl.
+Qed.
+
+
+(* ---------------------------------------------------------------- readable forms *)
+Lemma spec_change_iff flt d A B k p st :
+  spec_change flt d A B (k, p, st) <->
+  (k = KAdd /\ exists b, st = Some b /\ In b B /\ st_path b = p /\ notin A p) \/
+  (k = KModify /\ exists a b, st = Some b /\ In a A /\ In b B /\ st_path a = p /\ st_path b = p
+                               /\ same_file d a (flt b) = false) \/
+  (k = KDelete /\ st = None /\ (exists a, In a A /\ st_path a = p) /\ notin B p /\ ~ hidden flt A B p).
+Proof.
+  destruct k, st as [b|]; simpl; split.
+  - intros (H1 & H2 & H3). left. split; auto. exists b. auto.
+  - intros [(_ & b' & E & H1 & H2 & H3)|[(E & _)|(E & _)]]; try discriminate. inversion E; subst. auto.
+  - intros [].
+  - intros [(_ & b' & E & _)|[(E & _)|(E & _)]]; discriminate.
+  - intros (H1 & H2 & a & H3 & H4 & H5). right. left. split; auto. exists a, b. repeat split; auto.
+  - intros [(E & _)|[(_ & a & b' & E & H1 & H2 & H3 & H4 & H5)|(E & _)]]; try discriminate.
+    inversion E; subst. split; auto. split; auto. exists a. auto.
+  - intros [].
+  - intros [(E & _)|[(_ & a & b' & E & _)|(E & _)]]; discriminate.
+  - intros [].
+  - intros [(E & _)|[(E & _)|(_ & E & _)]]; discriminate.
+  - intros (H1 & H2 & H3). right. right. auto.
+  - intros [(E & _)|[(E & _)|(_ & _ & H1 & H2 & H3)]]; try discriminate. auto.
+Qed.
+
+(* sameFile compares exactly the identity key *)
+Theorem same_file_is_identity a b :
+  same_file DMetadata a b = key_eqb (identity_key a) (identity_key b).
+Proof.
+  unfold same_file, key_eqb, identity_key, compare_stat. cbn [fst snd bytes_eqb].
+  destruct (N.eqb (st_mode a) (st_mode b)) eqn:Em.
+  - apply N.eqb_eq in Em. unfold st_is_dir. rewrite Em.
+    destruct (mode_is_dir (st_mode b)); cbn [negb andb N.eqb];
+    destruct (N.eqb (st_uid a) (st_uid b)), (N.eqb (st_gid a) (st_gid b)),
+             (N.eqb (st_devmajor a) (st_devmajor b)), (N.eqb (st_devminor a) (st_devminor b)),
+             (N.eqb (st_size a) (st_size b)), (N.eqb (st_mtime a) (st_mtime b)),
+             (bytes_eqb (st_linkname a) (st_linkname b)); reflexivity.
+  - cbn [andb].
+    destruct (st_is_dir a); cbn [negb]; auto.
+    destruct (N.eqb (st_size a) (st_size b)); cbn [negb]; auto.
+    destruct (N.eqb (st_mtime a) (st_mtime b)); cbn [negb]; auto.
 Qed.
